@@ -3,6 +3,8 @@ package main
 // Trusted specifications of external functions (assumed contracts; every use is reported in the evidence).
 
 import (
+	"fmt"
+	"os"
 	"go/token"
 	"go/types"
 	"math/big"
@@ -62,6 +64,23 @@ func init() {
 				}
 			}
 			return rs
+		}
+		// a package-level pool whose New function is set by the package initialiser (var p = sync.Pool{New: func...})
+		if os.Getenv("GOVC_DEBUG") != "" {
+			fmt.Fprintf(os.Stderr, "Pool.Get on %v (loc=%v), %d known pools\n", args[0].L, args[0].Loc != nil, len(ex.ld.poolNewFuncs()))
+		}
+		for g, f := range ex.ld.poolNewFuncs() {
+			if ex.ld.globalRef(g) == args[0].Term() {
+				rs := ex.callStatic(fr, st, f, nil, nil, pos)
+				if len(rs) == 1 && len(rs[0].L) == 2 && rs[0].L[0].Op == "intconst" && rs[0].L[0].Name != "0" {
+					ct := ex.ld.tagType(rs[0].L[0])
+					if _, isPtr := ct.Underlying().(*types.Pointer); isPtr {
+						ex.havocScalars(st, scalar(ct, rs[0].L[1]), 0)
+					}
+				}
+				ex.trustedUsed["sync.Pool.Get returns an object built by the pool's New function that nothing else references; recycled objects keep their reference structure (slice headers, pointers) and have arbitrary scalar contents"] = true
+				return rs
+			}
 		}
 		// unknown New function: an exclusively owned object of unknown dynamic type
 		ref := st.newRef()
